@@ -132,6 +132,15 @@ static size_t d_group(const uint8_t *s, size_t nb, const encinfo_t *i, uint64_t 
 static bool g_group(const uint8_t *s, size_t nb, const encinfo_t *i, size_t n, size_t idx, uint64_t *v) { (void)nb; (void)i; (void)n; return varintGroupGetField(s, (uint8_t)idx, v) != 0; }
 static size_t c_group(const uint8_t *s, size_t nb, const encinfo_t *i, void *o, size_t cap, size_t n) { (void)nb; (void)i; (void)n; uint8_t fc = 0; size_t used = varintGroupDecode(s, o, &fc, cap); return used ? fc : 0; }
 
+static size_t e_group_put(uint8_t *d, const uint64_t *a, size_t n, encinfo_t *i) { (void)i; return varintGroupPut(d, a, (uint8_t)n); }
+static size_t d_group_get(const uint8_t *s, size_t nb, const encinfo_t *i, uint64_t *o, size_t n) {
+    (void)i;
+    uint8_t fc = 0;
+    size_t used = varintGroupGet(s, o, &fc, n);
+    if (used != nb) return (size_t)-1 - used;
+    return fc;
+}
+
 /* ----------------------------------------------------------------- dict */
 static size_t b_dict(const uint64_t *a, size_t n) { return varintDictEncodedSize(a, n); }
 static size_t e_dict(uint8_t *d, const uint64_t *a, size_t n, encinfo_t *i) { (void)i; return varintDictEncode(d, a, n); }
@@ -247,6 +256,7 @@ static const codec_t CODECS[] = {
     {.name = "pfor.95", .encname = "varintPFOREncode", .decname = "varintPFORDecode", .elembits = 64, .maxlen = 200000, .bound = b_pfor95, .boundname = "varintPFORSize", .encode = e_pfor95, .decode = d_pfor_meta, .getat = g_pfor_readmeta, .param = 95},
     {.name = "pfor.99", .encname = "varintPFOREncode", .decname = "varintPFORDecode", .elembits = 64, .maxlen = 200000, .bound = b_pfor99, .boundname = "varintPFORSize", .encode = e_pfor99, .decode = d_pfor_hdr, .getat = g_pfor, .param = 99},
     {.name = "group", .encname = "varintGroupEncode", .decname = "varintGroupDecode", .elembits = 64, .domain = DOM_GROUP, .maxlen = 64, .bound = b_group, .boundname = "varintGroupSize", .bound_exact = true, .encode = e_group, .decode = d_group, .getat = g_group, .decode_cap = c_group, .cap_may_refuse = true},
+    {.name = "group.putget", .encname = "varintGroupPut", .decname = "varintGroupGet", .elembits = 64, .domain = DOM_GROUP, .maxlen = 64, .bound = b_group, .boundname = "varintGroupSize", .bound_exact = true, .encode = e_group_put, .decode = d_group_get, .getat = g_group},
     {.name = "dict", .encname = "varintDictEncode", .decname = "varintDictDecode", .elembits = 64, .domain = DOM_DICT, .bound = b_dict, .boundname = "varintDictEncodedSize", .bound_exact = true, .encode = e_dict, .decode = d_dict},
     {.name = "dict.into", .encname = "varintDictEncode", .decname = "varintDictDecodeInto", .elembits = 64, .domain = DOM_DICT, .bound = b_dict, .boundname = "varintDictEncodedSize", .bound_exact = true, .encode = e_dict, .decode = d_dict_into, .decode_cap = c_dict_into, .cap_may_refuse = true},
     {.name = "dict.withdict", .encname = "varintDictEncodeWithDict", .decname = "varintDictDecodeInto", .elembits = 64, .domain = DOM_DICT, .bound = b_dict_with, .boundname = "varintDictEncodedSizeWithDict", .bound_exact = true, .encode = e_dict_with, .decode = d_dict_into},
